@@ -64,7 +64,9 @@ ASSUMPTIONS = [
     "`if`) re-assigning a name already bound by a def/class/import/assignment of that scope; no TYPE_CHECKING blocks",
     "excluded by construction (only one agent can know them / inspector docs): all other conditional definitions, annotation-only attributes, "
     "callable instances, lambdas and class aliases as attribute values, sibling modules differing only by leading underscores, "
-    "member names equal to sub-module names, `import pkg.x` inside pkg/__init__ (binds the package to itself), wildcard imports "
+    "(pairs differing by a TRAILING underscore, a / a_, are generated), member names equal to sub-module names, any binding of the "
+    "top-level package inside its own __init__ (`import pkg.x`, or the package re-exported under another name by a sub-module and imported "
+    "back: a self-reference, which the inspector drops by design as a cyclic member), wildcard imports "
     "from package __init__ modules",
     "names only assigned as self.x in __init__ are removed from the static side; dunder names are compared only when the source binds them",
     "method flavour (staticmethod/classmethod/property/cached) is read from labels both agents spell identically; other labels, "
